@@ -228,7 +228,7 @@ theorem validCert_spec (ck : CertKey) (c : Cert) (now : Int) :
     simp <;> omega
 
 def isCacheOrCA : Ev → Bool
-  | .get _ | .order _ | .put _ => true
+  | .get _ | .order _ | .put _ | .account .. | .csr .. => true
   | .policy _ => false
 
 def isOrder : Ev → Bool
@@ -291,17 +291,26 @@ theorem tokenPath_valid (w : World) (name : Bytes) (now : Int) (c : Cert)
     | miss => simp [hg, Res.cert?] at hr
     | err => simp [hg, Res.cert?] at hr
 
+/-- the two ways `createCert` can end -/
+theorem issue_cases (w : World) (ck : CertKey) (now : Int) :
+    (issue w ck now).2 = (.errIssue, (ck.str, .failed) :: w.state) ∨
+    ∃ c, w.ca ck = some c ∧ validCert ck c now = true ∧ (issue w ck now).2 = (.issued c, (ck.str, .ready c) :: w.state) := by
+  unfold issue
+  cases acctEv w.acct with
+  | none => exact Or.inl rfl
+  | some ae =>
+    cases hca : w.ca ck with
+    | none => exact Or.inl rfl
+    | some c =>
+      by_cases hv : validCert ck c now
+      · exact Or.inr ⟨c, rfl, hv, by simp [hv]⟩
+      · exact Or.inl (by simp [hv])
+
 theorem issue_valid (w : World) (ck : CertKey) (now : Int) (c : Cert)
     (hr : (issue w ck now).2.1.cert? = some c) : validCert ck c now = true := by
-  unfold issue at hr
-  cases hca : w.ca ck with
-  | none => simp [hca, Res.cert?] at hr
-  | some c' =>
-    simp only [hca] at hr
-    by_cases hv : validCert ck c' now
-    · simp only [hv, if_true, Res.cert?, Option.some.injEq] at hr
-      subst hr; exact hv
-    · simp [hv, Res.cert?] at hr
+  rcases issue_cases w ck now with h | ⟨c', _, hv, h⟩
+  · rw [h] at hr; simp [Res.cert?] at hr
+  · rw [h] at hr; simp only [Res.cert?, Option.some.injEq] at hr; subst hr; exact hv
 
 theorem lookupOrIssue_valid (w : World) (ck : CertKey) (now : Int) (c : Cert)
     (hs : w.state.lookup ck.str = none)
@@ -365,17 +374,13 @@ theorem state_serves_expired (w : World) (h : Hello) (name : Bytes) (now : Int) 
 theorem issue_state (w : World) (ck : CertKey) (now : Int) (k : Bytes) (c : Cert)
     (hin : (k, StateVal.ready c) ∈ (issue w ck now).2.2) :
     (k, StateVal.ready c) ∈ w.state ∨ (k = ck.str ∧ validCert ck c now = true) := by
-  unfold issue at hin
-  cases hca : w.ca ck with
-  | none => simp [hca] at hin; exact Or.inl hin
-  | some c' =>
-    simp only [hca] at hin
-    by_cases hv : validCert ck c' now
-    · simp only [hv, if_true, List.mem_cons, Prod.mk.injEq, StateVal.ready.injEq] at hin
-      rcases hin with ⟨hk, hc⟩ | hin
-      · subst hc; exact Or.inr ⟨hk, hv⟩
-      · exact Or.inl hin
-    · simp [hv] at hin; exact Or.inl hin
+  rcases issue_cases w ck now with h | ⟨c', _, hv, h⟩
+  · rw [h] at hin; simp at hin; exact Or.inl hin
+  · rw [h] at hin
+    simp only [List.mem_cons, Prod.mk.injEq, StateVal.ready.injEq] at hin
+    rcases hin with ⟨hk, hc⟩ | hin
+    · subst hc; exact Or.inr ⟨hk, hv⟩
+    · exact Or.inl hin
 
 theorem lookupOrIssue_state (w : World) (ck : CertKey) (now : Int) (k : Bytes) (c : Cert)
     (hin : (k, StateVal.ready c) ∈ (lookupOrIssue w ck now).2.2) :
@@ -431,12 +436,26 @@ theorem putEv_no_order (w : World) (ck : CertKey) : (putEv w ck).filter isOrder 
 theorem polEv_no_order (w : World) (name : Bytes) : (polEv w name).filter isOrder = [] := by
   unfold polEv; cases w.whitelist <;> simp [isOrder]
 
+theorem acctEv_no_order (a : Acct) (ae : List Ev) (h : acctEv a = some ae) : ae.filter isOrder = [] := by
+  unfold acctEv at h
+  split at h
+  · simp at h; subst h; rfl
+  · split at h
+    · simp at h
+    · simp at h; subst h; simp [isOrder]
+
 theorem issue_orders (w : World) (ck : CertKey) (now : Int) :
-    ((issue w ck now).1.filter isOrder).length = 1 := by
+    ((issue w ck now).1.filter isOrder).length ≤ 1 := by
   unfold issue
-  cases w.ca ck with
-  | none => simp [List.filter_cons, isOrder]
-  | some c => by_cases hv : validCert ck c now <;> simp [hv, isOrder, List.filter_cons, putEv_no_order]
+  cases ha : acctEv w.acct with
+  | none => simp
+  | some ae =>
+    have := acctEv_no_order _ _ ha
+    cases w.ca ck with
+    | none => simp [List.filter_append, this, List.filter_cons, isOrder]
+    | some c =>
+      by_cases hv : validCert ck c now <;>
+        simp [hv, isOrder, List.filter_cons, List.filter_append, this, putEv_no_order]
 
 theorem lookupOrIssue_orders (w : World) (ck : CertKey) (now : Int) :
     ((lookupOrIssue w ck now).1.filter isOrder).length ≤ 1 ∧
@@ -448,7 +467,7 @@ theorem lookupOrIssue_orders (w : World) (ck : CertKey) (now : Int) :
     cases hg : cacheGet w.cache ck now with
     | ok c => simp [getEv_no_order]
     | err => simp [getEv_no_order]
-    | miss => simp [List.filter_append, getEv_no_order, issue_orders]
+    | miss => simp [List.filter_append, getEv_no_order]; exact issue_orders w ck now
 
 /-- A call sends at most one order, and none at all when `m.state` already has an entry for the key
     (the sequential face of "one creator per certKey"). -/
@@ -512,10 +531,8 @@ theorem lookupOrIssue_no_token (w : World) (ck : CertKey) (now : Int) (c : Cert)
     | ok c' => simp
     | err => simp
     | miss =>
-      simp only [issue]
-      cases hca : w.ca ck with
-      | none => simp
-      | some c' => by_cases hv : validCert ck c' now <;> simp [hv]
+      simp only
+      rcases issue_cases w ck now with h | ⟨c', _, _, h⟩ <;> rw [h] <;> simp
 
 /-- **token_path_only_for_challenge_names.** A challenge (tls-alpn-01) certificate is handed out only to
     a hello that offers exactly the `acme-tls/1` protocol, and only the one stored for that very name:
@@ -584,10 +601,7 @@ theorem lookupOrIssue_kinds (w : World) (ck : CertKey) (now : Int) (c : Cert) :
       · intro hc
         exact issue_valid w ck now c (by rw [hc]; rfl)
       · intro hc
-        unfold issue at hc
-        cases hca : w.ca ck with
-        | none => simp [hca] at hc
-        | some c' => by_cases hv : validCert ck c' now <;> simp [hca, hv] at hc
+        rcases issue_cases w ck now with h | ⟨c', _, _, h⟩ <;> rw [h] at hc <;> simp at hc
 
 theorem getCertificate_kinds (w : World) (h : Hello) (a : Option Bytes) (now : Int) (c : Cert) :
     ((getCertificate w h a now).2.1 = .issued c → ∃ name, a = some name ∧ validCert (certKeyOf h name) c now = true) ∧
